@@ -29,6 +29,8 @@
       the message's authorities, in order), then the handler; a failing tx leaves the state unchanged.
     - Actions are bank MsgSend of one denomination that nothing else moves; the bank is a total function to Z
       and a send fails iff the sender's balance is too small (no holds/vesting/restrictions on these accounts).
+    - Block times and trigger times are exact unix nanoseconds (the listener order key of a time trigger is
+      uint64(UnixNano)); heights and times are inputs of each block.
     - Gas numbers are not modelled: [c_used] (gas consumed by the creating tx before the limit is computed)
       and the per-block [b_oracle] (ids whose actions ran out of gas or panicked) are supplied from outside;
       the only gas facts assumed are that a send needs at least [gas_lo] gas.  The gas limit is kept with
@@ -51,12 +53,17 @@ Definition gas_lo : N := 4000.     (* a bank send consumes at least this much ga
 
 Inductive event :=
 | EvHeight (h : N)
-| EvTime (t : N)                                    (* unix seconds *)
+| EvTime (t : N)                                    (* unix NANOseconds, exact (time.Time.UnixNano) *)
 | EvTx (name : N) (attrs : list (N * N)).           (* attribute name, required value (0 = any) *)
 
 Record emitted := { em_type : N; em_attrs : list (N * N) }.
 
-Record action := { a_from : addr; a_to : addr; a_amt : Z }.
+(** [a_co]: required signers of the message besides [a_from] (none for a bank send).  The one
+    multi-signer message the harness uses is a nested MsgCreateTriggerRequest with authorities
+    [a_from :: a_co] whose own condition is a past block height: it passes ValidateBasic and its handler
+    always fails (ValidateContext); it is written with [a_amt = 0], which can never be sent. *)
+Record action := { a_from : addr; a_to : addr; a_amt : Z; a_co : list addr }.
+Definition a_signers (a : action) : list addr := a_from a :: a_co a.
 
 Record trigger := { t_id : N; t_owner : addr; t_event : event; t_actions : list action;
                     t_auths : list addr; t_prepaid : N }.
@@ -126,7 +133,8 @@ Inductive tx :=
 | TDestroy (who : addr) (id : N)
 | TSend (from to : addr) (amt : Z).
 
-Definition action_ok (auths : list addr) (a : action) : bool := mem (a_from a) auths.
+(** hasSigners: EVERY required signer of the action is one of the authorities *)
+Definition action_ok (auths : list addr) (a : action) : bool := forallb (fun x => mem x auths) (a_signers a).
 
 Definition event_valid (ev : event) : bool :=
   match ev with
@@ -184,7 +192,7 @@ Definition apply_tx (h t : N) (s : state) (x : tx) : state * bool :=
           else ({| reg := remove_id id (reg s); queue := queue s; next_id := next_id s; bank := bank s |}, true)
       end
   | TSend from to amt =>
-      let a := {| a_from := from; a_to := to; a_amt := amt |} in
+      let a := {| a_from := from; a_to := to; a_amt := amt; a_co := [] |} in
       if can_send (bank s) a
       then ({| reg := reg s; queue := queue s; next_id := next_id s; bank := apply_send (bank s) a |}, true)
       else (s, false)
